@@ -129,6 +129,21 @@ def emitted(out):
     return objs
 
 
+def export(module, cfg_text, rundir, name="scen", timeout=1800, heap="4g"):
+    """Scenario export: run `module` (INIT/NEXT FALSE/CONSTRAINT Emit) with one worker and return the distinct JSON
+    objects it printed; their number must equal TLC's count of distinct states."""
+    r = tlc_ok(tlc(module, cfg_text, rundir, name=name, workers=1, timeout=timeout, heap=heap), "scenario export")
+    seen = set()
+    objs = []
+    for o in emitted(r["out"]):
+        k = json.dumps(o, sort_keys=True)
+        if k not in seen:
+            seen.add(k)
+            objs.append(o)
+    r["objs"] = objs
+    return r
+
+
 def tlc_ok(res, what=""):
     """Raise Machinery unless TLC finished without any error."""
     if not res["completed"] or res["error"]:
